@@ -96,7 +96,58 @@ def run(ctx):
             else:
                 continue
             break
-    ctx.evaluations = len(cases) + len(longs)
+    n_files = across_files(ctx, rng, q)
+    ctx.evaluations = len(cases) + len(longs) + n_files
     ctx.distinct_nontrivial = pairs
     ctx.search_stats = {"pairs_compared": pairs, "cases": len(cases), "long_histories": [len(ipgen.ops_of(c)) for c in longs]}
     ctx.samples = [{"case": c, "impl": o} for c, o in list(zip(cases, i))[:2] + list(zip(cases, i))[-2:]]
+
+
+def across_files(ctx, rng, q):
+    """one run over a directory (with a file that fails in the middle, custom preserved prefixes, several host-bit counts): the addresses of
+    ALL files of the run must be mapped by one prefix-preserving function"""
+    import base64
+    import ipaddress
+    import json
+    import vlib
+
+    def lcp(a, b):
+        return 32 - (a ^ b).bit_length()
+    n = 0
+    runs, metas = [], []
+    for _ in range(3 if q else 30):
+        base = rng.getrandbits(32)
+        addrs = sorted({base ^ (1 << rng.randrange(32)) ^ (rng.getrandbits(k) if k else 0) for k in (0, 0, 3, 8, 8, 16, 24, 31) for _i in range(2)} | {base})
+        from . import ipref
+        addrs = [a for a in addrs if (a >> 28) < 14 and not ipref.is_mask_ref(a)]     # mask-shaped values are left alone on purpose (C05)
+        names = ["a.cfg", "b.cfg", "c/d.cfg", "e.cfg"]
+        files = {nm: [] for nm in names}
+        for a in addrs:
+            files[rng.choice(names)].append(a)
+        tree = [[nm, base64.b64encode("".join("host %s\n" % ipaddress.IPv4Address(a) for a in xs).encode()).decode(), {}] for nm, xs in files.items()]
+        tree.append(["b_bad.cfg", base64.b64encode(b"host 1.2.3.4\n\xff\xfe broken\n").decode(), {}])
+        hb = rng.choice([0, 8, 5])
+        opts = {"ip": True, "salt": rng.choice(["s", "T5", ""]), "b4": hb, "b6": hb, "hostbits": hb,
+                "prefixes": rng.choice([None, ["20.0.0.0/8"], ["172.16.0.0/12", "192.168.0.0/16"], ["%s/9" % ipaddress.IPv4Address(base & 0xFF800000)]])}
+        for mode in ("api", "main"):
+            runs.append(["files", mode, json.dumps(opts), json.dumps(tree)])
+            metas.append((files, opts, mode))
+    for c, out, (files, opts, mode) in zip(runs, vlib.run_impl(runs), metas):
+        try:
+            r = json.loads(out)
+            pairs = []
+            for nm, xs in files.items():
+                got = [int(ipaddress.IPv4Address(l.split()[1])) for l in r["out"][nm].splitlines()]
+                assert len(got) == len(xs)
+                pairs += list(zip(xs, got))
+        except Exception as e:
+            ctx.fail("directory run did not produce every readable file", {"opts": opts, "mode": mode}, out[:300], label="impl-files")
+            continue
+        n += len(pairs)
+        bad = next(((x, y, fx, fy) for (x, fx) in pairs for (y, fy) in pairs if x < y and lcp(x, y) != lcp(fx, fy)), None)
+        if bad:
+            x, y, fx, fy = bad
+            ctx.fail("within ONE run over a directory, %s and %s share %d leading bits but their images %s and %s share %d" % (
+                ipaddress.IPv4Address(x), ipaddress.IPv4Address(y), lcp(x, y), ipaddress.IPv4Address(fx), ipaddress.IPv4Address(fy), lcp(fx, fy)),
+                {"opts": opts, "entry_point": mode, "files": {k: [str(ipaddress.IPv4Address(a)) for a in v] for k, v in files.items()}}, [fx, fy], label="impl-files")
+    return n
